@@ -24,7 +24,11 @@ EXPLANATION = (
     "pandapower's run_time_step catches) must cover E of its pandapipes members, because the per-net handler re-raises "
     "the member's error; the named arguments continue_on_divergence and verbose reach ts_variables. (R13.2) run_loop "
     "calls run_time_step exactly once per element of ts_variables['time_steps'], passes ts_variables on unchanged, "
-    "stores nothing on the net, and the only per-step keyword it injects is the transient step counter. Not decided: "
+    "stores nothing on the net, and the only per-step keyword it injects is the transient step counter. (R13.3, shared with "
+    "C05 R5.2) pandapower decides from net.converged whether a step whose error it swallowed (continue_on_divergence) was "
+    "calculated, and the output writer logs whatever the result tables hold, so the reset of net.converged and of the result "
+    "tables must precede every call of pipeflow that can raise: a step without solution then never carries the previous "
+    "step's results. Not decided: "
     "equality of logged results with a fresh run (runtime; rests on C12).")
 ASSUMPTIONS = ["pandapower's run_time_step catches ts_variables['errors'] and calls pf_not_converged, which re-raises unless "
                "continue_on_divergence", "pandapower's _evaluate_net re-raises the member net's error unless the member's "
@@ -176,4 +180,9 @@ def r13_2(run):
     run.floor(6)
 
 
-RULES = [("R13.1", r13_1), ("R13.2", r13_2)]
+def r13_3(run):
+    from .c05 import r5_2
+    r5_2(run)
+
+
+RULES = [("R13.1", r13_1), ("R13.2", r13_2), ("R13.3", r13_3)]
